@@ -7,8 +7,9 @@
      conv       {id, op, k, v, a, outcome, out}
      minigo     {id, shape, exp, alt, out, outcome, msg}      (the check strips prog before judging)
      variadic / select / constuse   {id, <the fields of the case, see GoMisc.tla>, outcome, out}
+     pkginit    {id, imps, vars, inits, form, outcome, out}   a program of several packages (PkgInit.tla)
    A record is good iff the observation is what the Go-semantics reference prescribes. *)
-EXTENDS IntALU, InitOrder, StrConv, GoMisc, Json, SequencesExt
+EXTENDS IntALU, InitOrder, StrConv, GoMisc, PkgInit, Json, SequencesExt
 
 (* ---- intalu *)
 AluExpectsPanic(r) == (r.op \in {"div", "rem"} /\ r.y.s = 0) \/ (r.op \in Shifts /\ r.y.s < 0)
@@ -92,10 +93,27 @@ MiscSig(r) == CASE r.fam = "variadic" -> [fam |-> "variadic", mode |-> r.mode, f
                                         chosen |-> IF r.ready = 0 THEN "default" ELSE r.dirs[r.ready]]
                 [] r.fam = "constuse" -> [fam |-> "constuse", kind |-> r.kind, how |-> r.how, cause |-> MiscCause(r)]
 
+(* ---- pkginit: {id, imps, vars, inits, form, outcome, out}: out = the lines printed (numbers; -1 for anything else) by the
+   program of PkgInit.tla written in source form `form` (0: one import declaration per package, variables before the
+   init functions; 1: one grouped import declaration, init functions textually before the variables - the reference
+   does not look at the form).  Good iff the program builds, runs to the end and prints the output of one of the
+   initialisation orders the Go specification allows (PiAccepts; see PkgInit.tla for the reading chosen); a program
+   whose imports form a cycle must not build. *)
+PkgProg(r) == [imps |-> r.imps, vars |-> r.vars, inits |-> r.inits]
+PkgOk(r) == IF ~PiAcyclic(r.imps) THEN r.outcome = "builderror"        \* (the wording of the error is not judged)
+            ELSE r.outcome = "ok" /\ PiAccepts(PkgProg(r), r.out)
+\* like: a build error on an acyclic import graph for which ParseProgram's stack search, taking every entry of the
+\* stack for an ancestor, reports a cycle
+PkgSig(r) == [fam |-> "pkginit",
+              cause |-> IF ~PiAcyclic(r.imps) THEN "missed-import-cycle"
+                        ELSE IF r.outcome # "ok" THEN r.outcome ELSE PiCause(PkgProg(r), r.out),
+              like |-> IF PiAcyclic(r.imps) /\ r.outcome = "builderror" /\ PiParserReportsCycle(PkgProg(r), FALSE)
+                       THEN "pending-import-taken-for-an-ancestor" ELSE "other"]
+
 RecOk(r) == CASE r.fam = "intalu" -> AluOk(r) [] r.fam = "initorder" -> InitOk(r) [] r.fam = "conv" -> ConvOk(r) [] r.fam = "minigo" -> MgOk(r)
-              [] r.fam \in MiscFams -> MiscOk(r)
+              [] r.fam \in MiscFams -> MiscOk(r) [] r.fam = "pkginit" -> PkgOk(r)
 Sig(r) == CASE r.fam = "intalu" -> AluSig(r) [] r.fam = "initorder" -> InitSig(r) [] r.fam = "conv" -> ConvSig(r) [] r.fam = "minigo" -> MgRecSig(r)
-            [] r.fam \in MiscFams -> MiscSig(r)
+            [] r.fam \in MiscFams -> MiscSig(r) [] r.fam = "pkginit" -> PkgSig(r)
 Cause(r) == <<r.fam, Sig(r).cause>>
 
 (* ---- record-walk skeleton (as in spec/lib2/Trace_HTMLEscape.tla).  One difference: when more than 400 records are bad, the list
